@@ -131,6 +131,20 @@ def explore(run, max_paths=20000):
 # ---- trees -----------------------------------------------------------------------------------
 
 
+def _all_leaves(subs):
+    return bool(subs) and all(s[0] in ("val", "valh", "valp") for s in subs)
+
+
+def _leaf_value(tree):
+    from dyce import H, P
+
+    if tree[0] == "val":
+        return tree[1]
+    if tree[0] == "valh":
+        return H([(o, c) for o, c in tree[1]])
+    return P(*[H([(o, c) for o, c in h]) for h in tree[1]])
+
+
 def build(tree):
     from dyce import H, P
     from dyce.r import CoalesceMode, R, SubstitutionRoller
@@ -143,6 +157,8 @@ def build(tree):
     if t == "valp":
         return R.from_value(P(*[H([(o, c) for o, c in h]) for h in tree[1]]))
     if t == "pool":
+        if _all_leaves(tree[1]) and len(repr(tree)) % 2:
+            return R.from_values(*[_leaf_value(s) for s in tree[1]])
         return R.from_sources(*[build(s) for s in tree[1]])
     if t == "rep":
         return tree[1] @ build(tree[2])
@@ -177,10 +193,14 @@ def build(tree):
         p = pred_fn(tree[1], tree[2])
         if len(tree[3]) == 1 and len(repr(tree)) % 2:
             return build(tree[3][0]).filter(lambda o: p(o.value))
+        if _all_leaves(tree[3]) and len(repr(tree)) % 3 == 0:
+            return R.filter_from_values(lambda o: p(o.value), *[_leaf_value(s) for s in tree[3]])
         return R.filter_from_sources(lambda o: p(o.value), *[build(s) for s in tree[3]])
     if t == "sel":
         if len(tree[2]) == 1 and len(repr(tree)) % 2:
             return build(tree[2][0]).select(*gen.which_to_py(tree[1]))
+        if _all_leaves(tree[2]) and len(repr(tree)) % 3 == 0:
+            return R.select_from_values(gen.which_to_py(tree[1]), *[_leaf_value(s) for s in tree[2]])
         return R.select_from_sources(gen.which_to_py(tree[1]), *[build(s) for s in tree[2]])
     if t == "subst":
         p = pred_fn(tree[1], tree[2])
